@@ -209,3 +209,44 @@ Lemma thm_rerun_clean : forall pos s n, Closed s -> RefsResolve s -> Acyclic s -
   (forall t, deleted KTable t P = true -> deleted KTblIdx t P = true /\ deleted KProf t P = true) ->
   same_objs (pruned_with pos (crash_with pos n s)) (pruned_with pos s).
 Proof. intros pos s n Hc _ Ha. exact (prune_rerun_clean pos s n (Closed_ClosedReach s Hc) Ha). Qed.
+
+(* ------------------------------------------------------------------ *)
+(** gc = drop the refs of expired transactions, then prune *)
+
+Lemma gc_refs_closed : forall expired s, Closed s -> Closed (gc_refs expired s).
+Proof. intros expired s H. exact H. Qed.
+
+Lemma gc_refs_resolve : forall expired s, RefsResolve s -> RefsResolve (gc_refs expired s).
+Proof.
+  intros expired s H n c Hin. unfold gc_refs, set_refs in Hin. cbn [refs] in Hin.
+  apply filter_In in Hin. destruct Hin as [Hin _]. exact (H n c Hin).
+Qed.
+
+Lemma thm_gc_safe : forall pos expired s, Closed s -> RefsResolve s ->
+  let s0 := gc_refs expired s in
+  let s' := gced_with pos expired s in
+  (forall n c, In (n, c) (refs s) -> expired n = false -> In (n, c) (refs s') /\ reach s0 c) /\
+  (forall n c, In (n, c) (refs s') -> In (n, c) (refs s) /\ expired n = false) /\
+  RefsResolve s' /\ Closed s' /\
+  (forall c, reach s0 c -> commit_intact s s' c) /\ (forall c, reach s' c <-> reach s0 c).
+Proof.
+  intros pos expired s Hc Hr. cbv zeta. unfold gced_with. set (s0 := gc_refs expired s).
+  destruct (thm_safe pos s0 (gc_refs_closed expired s Hc) (gc_refs_resolve expired s Hr))
+    as (A & B & C & D & E).
+  assert (Hrefs : forall n c, In (n, c) (refs s0) <-> In (n, c) (refs s) /\ expired n = false).
+  { intros n c. unfold s0, gc_refs, set_refs. cbn [refs]. rewrite filter_In. cbn [fst].
+    rewrite negb_true_iff. reflexivity. }
+  split; [|split; [|split; [exact B|split; [exact C|split; [exact D|exact E]]]]].
+  - intros n c Hin He. assert (H0 : In (n, c) (refs s0)) by (apply Hrefs; auto).
+    split; [rewrite A; exact H0|eapply reach_ref; exact H0].
+  - intros n c Hin. rewrite A in Hin. apply Hrefs. exact Hin.
+Qed.
+
+Lemma thm_gc_complete : forall pos expired s, Closed s -> RefsResolve s -> Acyclic s ->
+  forall c, ~ reach (gc_refs expired s) c -> get_commit (gced_with pos expired s) c = None.
+Proof.
+  intros pos expired s Hc Hr Ha.
+  destruct (thm_complete pos (gc_refs expired s) (gc_refs_closed expired s Hc)
+              (gc_refs_resolve expired s Hr) Ha) as (A & _).
+  exact A.
+Qed.
